@@ -39,6 +39,9 @@ type sink struct {
 	parked chan struct{}
 	isPark bool
 	fail   error
+	// parkLen is the size of the write that parked; closed makes every later write fail too
+	parkLen int
+	closed  bool
 }
 
 func (s *sink) Write(p []byte) (int, error) {
@@ -47,6 +50,11 @@ func (s *sink) Write(p []byte) (int, error) {
 	park := s.parkAt != 0 && s.writes == s.parkAt
 	if park {
 		s.isPark = true
+		s.parkLen = len(p)
+	}
+	if s.closed {
+		s.mu.Unlock()
+		return 0, errors.New("sink: transport closed")
 	}
 	ch := s.parked
 	s.mu.Unlock()
@@ -55,6 +63,9 @@ func (s *sink) Write(p []byte) (int, error) {
 		s.mu.Lock()
 		s.isPark = false
 		err := s.fail
+		if err != nil {
+			s.closed = true
+		}
 		s.mu.Unlock()
 		if err != nil {
 			return 0, err
@@ -439,11 +450,23 @@ type c03ParkCase struct {
 	ParkWrite int // which sink write parks (1-based)
 	ReleaseAt int // step index after which the parked write is released (before running that step)
 	Ops       []Op
+	// WriterBuf: size of the frame writer's buffer (1 = every frame is written through; larger = frames
+	// stay corked until a flush, e.g. the one the first receive performs)
+	WriterBuf int
+	// FailRelease: the parked write fails when it is released (the transport was closed under it)
+	FailRelease bool
 }
 
 func runC03Parked(c c03ParkCase) (r pbt.Result) {
 	sk := &sink{parkAt: c.ParkWrite, parked: make(chan struct{})}
-	wr := drpcwire.NewWriter(sk, 1)
+	if c.FailRelease {
+		sk.fail = errors.New("sink: transport closed under the write")
+	}
+	wbuf := c.WriterBuf
+	if wbuf == 0 {
+		wbuf = 1
+	}
+	wr := drpcwire.NewWriter(sk, wbuf)
 	st := drpcstream.NewWithOptions(context.Background(), sid, wr, drpcstream.Options{SplitSize: c.Split})
 	type call struct {
 		op  Op
@@ -456,7 +479,7 @@ func runC03Parked(c c03ParkCase) (r pbt.Result) {
 	}
 	released := false
 	termAt, termLocal := -1, false
-	bytesAtTerm, parkedAtTerm := 0, false
+	bytesAtTerm, parkedAtTerm, parkLenAtTerm := 0, false, 0
 	readerBusy := func() bool {
 		for _, cl := range calls {
 			if strings.HasPrefix(cl.op.Kind, "r:") && !cl.res.done {
@@ -493,6 +516,9 @@ func runC03Parked(c c03ParkCase) (r pbt.Result) {
 			termAt = step
 			termLocal = cause == "close" || cause == "senderror" || cause == "sendcancel" || cause == "closesend" || cause == "release"
 			bytesAtTerm, parkedAtTerm = sk.len(), parked
+			sk.mu.Lock()
+			parkLenAtTerm = sk.parkLen
+			sk.mu.Unlock()
 		}
 		if term && !parked && pending == 0 && !fin {
 			fail(step, "terminated with no call in flight but not finished")
@@ -611,10 +637,10 @@ func runC03Parked(c c03ParkCase) (r pbt.Result) {
 				return
 			}
 			lastID, curID, curOpen = fr.Message, fr.Message, true
-			if termAt >= 0 && start >= bytesAtTerm && !(parkedAtTerm && start == bytesAtTerm) {
+			if termAt >= 0 && start >= bytesAtTerm && !(parkedAtTerm && start < bytesAtTerm+parkLenAtTerm) {
 				after = append(after, emission{Kind: fr.Kind, Control: fr.Control})
 			}
-		} else if termAt >= 0 && start > bytesAtTerm && fr.Kind == 2 && !(parkedAtTerm && start == bytesAtTerm) {
+		} else if termAt >= 0 && start > bytesAtTerm && fr.Kind == 2 && !(parkedAtTerm && start < bytesAtTerm+parkLenAtTerm) {
 			// a further frame of a message that was in progress when the stream terminated
 			if !termLocal || start > bytesAtTerm {
 				after = append(after, emission{Kind: 100 + fr.Kind})
@@ -647,6 +673,12 @@ func runC03Parked(c c03ParkCase) (r pbt.Result) {
 	if overlapped {
 		r.Label("parked_write_overlapped_other_calls")
 	}
+	if wbuf > 1 {
+		r.Label("corked_writer")
+	}
+	if c.FailRelease {
+		r.Label("parked_write_failed")
+	}
 	if termAt >= 0 {
 		r.Label("terminated")
 		if parkedAtTerm {
@@ -663,6 +695,8 @@ func TestC03Parked(t *testing.T) {
 		c := c03ParkCase{Split: rapid.SampledFrom([]int{0, 3, -1}).Draw(t, "split"), ParkWrite: rapid.IntRange(1, 4).Draw(t, "park")}
 		c.Ops = rapid.SliceOfN(genOp, 2, 12).Draw(t, "ops")
 		c.ReleaseAt = rapid.IntRange(1, 12).Draw(t, "release")
+		c.WriterBuf = rapid.SampledFrom([]int{1, 1, 64, 4096}).Draw(t, "wbuf")
+		c.FailRelease = rapid.IntRange(0, 2).Draw(t, "failrelease") == 0
 		return c
 	}
 	pbt.Check(t, pbt.Prop[c03ParkCase]{ID: "C03", Name: "parked", Gen: gen, Run: runC03Parked})
